@@ -35,10 +35,11 @@ def decode(data, plugins=False, every=True):
     old = sys.stdout, sys.stderr
     sys.stdout, sys.stderr = io.StringIO(), io.StringIO()
     pt.sectionFun = spy
-    outcome, doc, detail = 'error', None, ''
+    outcome, doc, detail, text = 'error', None, '', ''
     try:
         try:
             eid, js = pt.parsePEL(st, cfg, False)
+            text = js if isinstance(js, str) else ''
             if js:
                 doc = json.loads(js)
                 outcome = 'doc'
@@ -51,7 +52,16 @@ def decode(data, plugins=False, every=True):
         so, se = sys.stdout.getvalue(), sys.stderr.getvalue()
         sys.stdout, sys.stderr = old
     return dict(outcome=outcome, doc=doc, detail=detail[:300], final_index=st.index, boundaries=bounds,
-                events=st.ev, stdout=so, stderr=se)
+                events=st.ev, stdout=so, stderr=se, text=text)
+
+
+def full_digest(res):
+    """the result of one decode as a string: the document AND the exact text it was handed out as (alignment
+    blanks included: two texts that parse to equal documents are still two results)"""
+    import hashlib
+    if res['doc'] is not None:
+        return project.digest(res['doc']) + '/' + hashlib.sha1(res.get('text', '').encode('utf-8', 'surrogatepass')).hexdigest()[:12]
+    return res['outcome'] + ':' + res['detail'].split(':')[0]
 
 
 def decode_cli(data, plugins=False):
